@@ -15,7 +15,9 @@ P = {
  "C07": (True, "wire-cone panic-freedom: compiler BCE report + discharge idioms, nil-guard obligations on decoded pointer fields, type-assert/panic/close scans, lockset re-entrancy and lock-order graph, cost-positivity path rule",
          "Decides, for every input a backend peer can send, the structural clauses without which C07 cannot hold: no index/slice in the wire cone (90 functions reachable from received bytes) that is neither compiler-proven nor covered by a stated idiom; no dereference of a JSON-decoded pointer field without a dominating nil test; no unchecked type assertion, explicit panic or non-owner channel close in the cone; no re-entrant lock acquisition or lock-order cycle among the Netceptor locks; peer-supplied costs are rejected unless positive before they can reach the shortest-path loop. It does not decide resource exhaustion or liveness afterwards.",
          "Trusts go/types, go/ssa, the VTA call graph (dependencies opaque in the quick tier), the compiler's prove pass, and the library contracts listed in the evidence file (io.Reader counts, strings.Split, json.Unmarshal nil-ness)."),
- "C08": (False, "control-cone panic-freedom (taint-lite type-assert rule, BCE obligations), ERROR-reply must-pass-through, no client I/O under shared locks, unit-index re-entrancy", "", ""),
+ "C08": (True, "control-cone panic-freedom (container-provenance type-assert rule, compiler BCE report + idioms), may-hold lockset re-entrancy incl. recursive read locks, ERROR-reply must-pass-through (SSA edge cuts), no client I/O under shared locks",
+         "Decides, for every byte sequence a control client can send, the structural clauses of C08: no comma-less type assertion on a value taken out of a JSON container anywhere in the control cone (384 functions); no compiler-unproven index/slice in session/command-parsing code without a stated idiom and none at all in the session loop; no explicit panic; no call made while a unit-index/work-type/status/control-function lock may be held whose same-goroutine callees acquire that lock again (self-deadlock, including RLock under RLock); assuming any of the seven failure sources of a request line fails, every path to the next read or return passes an ERROR-prefixed reply; no client socket I/O with a shared lock held. It does not decide memory growth, latency or replies of remote nodes.",
+         "Trusts go/types, go/ssa, VTA, the compiler's prove pass, and the stated contracts (json.Unmarshal container shapes; typed ExtraData invariant)."),
  "C09": (False, "edge-cut inside the verifier closure; role/option agreement tables; who-may on InsecureSkipVerify and ReceptorVerifyFunc call sites", "", ""),
  "C10": (False, "single relay site (who-may), positive-budget edge cut, decrement value identity, expiry notice constants", "", ""),
  "C11": (False, "edge-cut on the single connection-table insertion; removal on every exit after insertion; lockset atomicity of scan+insert", "", ""),
